@@ -177,10 +177,18 @@ func (ce *callEngine) drop(raw uint64) {
 }
 
 func (ce *callEngine) pushFrame(frame *callFrame) {
+	ce.ensureFrameRoom()
+	ce.frames = append(ce.frames, frame)
+}
+
+// ensureFrameRoom panics with wasmruntime.ErrRuntimeStackOverflow if pushFrame
+// would. Function listeners are notified before the frame of the callee is
+// pushed: this is called first, so that a call that cannot begin is not
+// reported as begun (it would never get an After or Abort notification).
+func (ce *callEngine) ensureFrameRoom() {
 	if callStackCeiling <= len(ce.frames) {
 		panic(wasmruntime.ErrRuntimeStackOverflow)
 	}
-	ce.frames = append(ce.frames, frame)
 }
 
 func (ce *callEngine) popFrame() (frame *callFrame) {
@@ -675,6 +683,7 @@ func (ce *callEngine) callGoFunc(ctx context.Context, m *wasm.ModuleInstance, f 
 	typ := f.funcType
 	lsn := f.parent.listener
 	if lsn != nil {
+		ce.ensureFrameRoom()
 		params := stack[:typ.ParamNumInUint64]
 		ce.stackIterator.reset(ce.stack, ce.frames, f)
 		lsn.Before(ctx, m, f.definition(), params, &ce.stackIterator)
@@ -4604,6 +4613,7 @@ func i32Abs(v uint32) uint32 {
 func (ce *callEngine) callNativeFuncWithListener(ctx context.Context, m *wasm.ModuleInstance, f *function, fnl experimental.FunctionListener) context.Context {
 	def, typ := f.definition(), f.funcType
 
+	ce.ensureFrameRoom()
 	ce.stackIterator.reset(ce.stack, ce.frames, f)
 	fnl.Before(ctx, m, def, ce.peekValues(typ.ParamNumInUint64), &ce.stackIterator)
 	ce.stackIterator.clear()
